@@ -389,8 +389,26 @@ def _run_http_producer_init(
     optional header onto the front.
     """
     resp_buf = BytesIO()
+    header_external_bytes = 0
     if info.header_type is not None:
-        _write_stream_header(resp_buf, result.header, app._server.external_config, sink=sink, method_name=method_name)
+        # A header large enough to be externalised is an upload of this
+        # response like any other: pre-flight it against the external cap and
+        # carry its size into the turn's running total.
+        try:
+            header_external_bytes = _write_stream_header(
+                resp_buf,
+                result.header,
+                app._server.external_config,
+                sink=sink,
+                method_name=method_name,
+                max_external_bytes=app._max_externalized_response_bytes,
+            )
+        except Exception as exc:
+            outcome.status = "error"
+            outcome.error_type = _log_method_error(app._server.protocol_name, method_name, app._server.server_id, exc)
+            outcome.error_message = _truncate_error_message(exc)
+            outcome.http_status = HTTPStatus.INTERNAL_SERVER_ERROR
+            raise _RpcHttpError(exc, status_code=outcome.http_status) from exc
     # Over HTTP a producer's first turn runs INSIDE the /init request, so the init
     # request's Arrow metadata IS the first tick's metadata — surface it to the
     # producer's first process() call. Without this the first turn sees the empty
@@ -414,6 +432,7 @@ def _run_http_producer_init(
         outcome=outcome,
         sink=sink,
         init_request_metadata=init_request_metadata,
+        initial_external_bytes=header_external_bytes,
     )
     # `produce_buf` is a native BufferReader now; read it out to splice into the
     # init response, which still carries a header written ahead of it.
@@ -467,6 +486,7 @@ def _run_http_exchange_init(
                 app._server.external_config,
                 sink=sink,
                 method_name=method_name,
+                max_external_bytes=app._max_externalized_response_bytes,
             )
         with new_ipc_stream(resp_buf, output_schema) as writer:
             sink.flush_contents(writer, output_schema)
@@ -854,6 +874,7 @@ def _run_http_producer_turn(
     owns_response_body: bool = False,
     call_token: bytes | None = None,
     call_state_bytes: bytes | None = None,
+    initial_external_bytes: int = 0,
 ) -> pa.BufferReader:
     """Run one HTTP turn of a producer stream.
 
@@ -918,6 +939,10 @@ def _run_http_producer_turn(
         call_state_bytes: The plaintext call state, passed alongside
             ``call_token`` so the init turn's access-log record shows the
             state that was issued.  ``None`` on continuation turns.
+        initial_external_bytes: Bytes this HTTP response has already uploaded
+            to external storage before the turn starts (an externalised
+            stream header on the init turn); counted against
+            ``max_externalized_response_bytes`` with the turn's own uploads.
 
     Returns:
         The IPC response body as a native ``pa.BufferReader``, positioned at the
@@ -976,7 +1001,7 @@ def _run_http_producer_turn(
         # ``resp_buf.tell()`` only — externalised payloads do not occupy the
         # wire body).  External payload size is governed by
         # ``max_externalized_response_bytes``.
-        cumulative_external_bytes = 0
+        cumulative_external_bytes = initial_external_bytes
         # The CallContext is hoisted out of the loop — its non-collector
         # fields are constant for the whole turn.  ``emit_client_log`` is the
         # only thing that needs to follow the current iteration's
